@@ -56,5 +56,11 @@ var (
 		W: Weights{Alu: 8, Load: 4, Store: 3, Branch: 2, Jump: 1, Loop: 1}, TakenPct: 50, ZeroRaPct: 5, MaxDyn: 2000, LineSpread: true, SplitHalves: true}
 )
 
+// OWNER: ownership and contention — lines owned by one core, shared lines
+// upgraded, and memory work that waits behind a miss while a younger control
+// transfer redirects the pipeline (Builder.Behind), mixed with ordinary code.
+var OWNER = Profile{Name: "OWNER", MinLen: 6, MaxLen: 40, PoolMin: 3, PoolMax: 6, MemSizes: []int{512, 1024, 4096},
+	W: Weights{Alu: 6, Load: 2, Store: 2, Branch: 1, Jump: 1, Behind: 4}, TakenPct: 50, ZeroRaPct: 5, MaxDyn: 2000, NoSubword: false}
+
 // AllProfiles lists the profiles by name.
-var AllProfiles = []Profile{REG, MEM, SHADOW, WALK, PRESSURE, SHADOWSLOW, PRESSURELOAD, CACHE, TAIL, PAIR, ERR, MEMSAFE}
+var AllProfiles = []Profile{REG, MEM, SHADOW, WALK, PRESSURE, SHADOWSLOW, PRESSURELOAD, CACHE, TAIL, PAIR, ERR, MEMSAFE, OWNER}
